@@ -1148,7 +1148,9 @@ func (x *exec) makeIface(s *State, v *Val, from, to types.Type) *Val {
 	x.c.Fun(unboxFn, []string{"Int"}, srt)
 	b := App(boxFn, x.term(v))
 	x.assume(s, Eq(App(unboxFn, b), x.term(v)))
-	return x.mkVal(App("mk-iface", tag, b), to)
+	r := x.mkVal(App("mk-iface", tag, b), to)
+	r.Boxed = v
+	return r
 }
 
 func (x *exec) typeAssert(fr *frame, i *ssa.TypeAssert, s *State) {
